@@ -2434,10 +2434,11 @@ class Parameters:
             subobjs.append(subobj)
 
         dep_obj = param_dep.cls if param_dep.inst is None else param_dep.inst
-        if dep_obj not in subobjs[:-1]:
+        depths = [i for i, subobj in enumerate(subobjs[:-1]) if subobj is dep_obj]
+        if not depths:
             return None, None, param_dep.what
 
-        depth = subobjs.index(dep_obj)
+        depth = depths[0]
         callback = None
         if depth > 0:
             # If a subobject changes, we need to notify the main
